@@ -667,8 +667,9 @@ func c18Hazard(in *c18In) string {
 		ae = ""
 	}
 	if in.Kind == "static" {
-		// an element that strings.TrimSpace turns into the name of a sibling coding while the
-		// RFC's OWS (SP / HTAB) trimming does not: Unicode white space around the name
+		// an element that strings.TrimSpace would turn into the name of a sibling coding while the
+		// RFC's OWS (SP / HTAB) trimming does not: Unicode white space around the name (the class
+		// of the repaired finding F-C18-7: the file server must not take it for the coding)
 		for _, e := range strings.Split(ae, ",") {
 			t := strings.TrimSpace(e)
 			if (t == "gzip" || t == "br" || t == "zstd") && strings.Trim(e, " \t") != t {
@@ -718,7 +719,7 @@ func c18Hazard(in *c18In) string {
 	case "static":
 		if strings.Contains(ae, "gzip") {
 			for _, e := range strings.Split(ae, ",") {
-				if strings.TrimSpace(e) == "zstd" {
+				if strings.Trim(e, " \t") == "zstd" {
 					if _, ok := c18Files[strings.TrimPrefix(in.Path, "/")+".zst"]; ok {
 						return "already-encoded:zstd"
 					}
